@@ -333,6 +333,16 @@ def record(args, scratch):
                 ln = int(mlen.group(1))
             points.append([w_[1], w_[2], w_[3], ln])
         out[scenario] = {"points": points, "worker_syscalls_total": len(mine)}
+        if scenario == "fresh":
+            # order monitor on the fault-free latch: the key file is put under its final name, then OPENED FOR READING (the read-back the
+            # statement demands), and only then is the attestation request written to the host socket
+            i_store = next((i for i, w_ in enumerate(mine) if w_[1].startswith("rename") and re.search(r'\.key"', w_[4].split(",")[-1] if "," in w_[4] else w_[4])), None)
+            i_attest = next((i for i, w_ in enumerate(mine) if w_[1] in ("write", "writev", "sendto", "sendmsg") and '"POST /secure-channel/key/' in w_[4]), None)     # strace shows the first 32 bytes: acquire is "POST /secure-channel/key HTTP..."
+            readback = None
+            if i_store is not None and i_attest is not None:
+                readback = any(w_[1] == "openat" and re.search(r'\.key"', w_[4]) and "O_RDONLY" in w_[4] and re.search(r"=\s*\d+\s*$", w_[4]) for w_ in mine[i_store + 1:i_attest])
+            out[scenario]["order_monitor"] = {"store_index": i_store, "attest_index": i_attest, "key_file_opened_for_reading_between": readback,
+                                               "calls_between": [w_[4].split(" ", 1)[-1][:160] for w_ in mine[(i_store or 0):(i_attest if i_attest is not None else (i_store or 0) + 30) + 1]][:40]}
     return {"zones": out}
 
 
@@ -347,6 +357,16 @@ def run(tier, rep):
     zones = sandbox.run("vf.props.c08", "record", {"scenarios": SCENARIOS}, timeout=300).get("zones")
     if not zones:
         raise common.Inconclusive("recording pass failed")
+    om = zones.get("fresh", {}).get("order_monitor")
+    if om:
+        rep.coverage["evaluations"] += 1
+        rep.coverage["store_readback_attest_order"] = {k: om[k] for k in ("store_index", "attest_index", "key_file_opened_for_reading_between")}
+        if om["store_index"] is None or om["attest_index"] is None:
+            rep.inconclusive.append("order monitor: store or attest not found in the recording pass")
+        elif om["store_index"] > om["attest_index"]:
+            rep.violation("attested-before-stored", om)
+        elif not om["key_file_opened_for_reading_between"]:
+            rep.violation("attested-without-reading-the-stored-key-back", om)
     trials = []
     for sc in SCENARIOS:
         pts = zones[sc]["points"]
